@@ -34,6 +34,7 @@ def gen_session(rng, tier, i):
     k["vocab"] = rng.choice([1, 2, 3, 100])
     k["n_max"] = rng.choice([2, 3, 5, 8])
     tb = model.gen_treebank(rng, k, nsent=rng.choice([1, 2, 3, 4, 6]))
+    model.add_twins(rng, tb, k)
     if rng.random() < 0.3 and len(tb) >= 1:
         tb.append(model.clone(rng.choice(tb)))          # repeated identical sentence
         tb[-1]["sid"] = tb[-2]["sid"] + 1
